@@ -145,6 +145,29 @@ def fileStep (w : World) (summ : List Nat) (a : Acc) (f : Nat) : Acc :=
           summ := fun g => if g = f then some r.summary else a.dir.summ g }
         active := a.active ++ r.active }
 
+/-- what `checkInternal` does with file `f` (observable through `--debug-analyzerinfo`) -/
+inductive Action where
+  /-- returns before `analyzeFile` -/
+  | early
+  /-- "skipping analysis - loaded N cached finding(s)" -/
+  | replay
+  /-- "discarding cached result …" / "no cached result …": analysis, cache and summary rewritten -/
+  | analyse
+  deriving DecidableEq, Repr, Inhabited
+
+def fileAction (w : World) (d : Dir) (f : Nat) : Action :=
+  match w.early f with
+  | some _ => .early
+  | none =>
+    match d.cache f with
+    | some e => if e.usable (w.hashOf f) then .replay else .analyse
+    | none => .analyse
+
+/-- the actions of a complete run, file by file (the directory changes while the run proceeds) -/
+def runActions (w : World) (summ : List Nat) : Acc → List Nat → List Action
+  | _, [] => []
+  | a, f :: r => fileAction w a.dir f :: runActions w summ (fileStep w summ a f) r
+
 /-- `processFilesTxt`: `none` = error string returned -/
 def collectInfos (d : Dir) : List Nat → Option (List Nat)
   | [] => some []
@@ -174,6 +197,22 @@ def completeRun (w : World) (o : Opts) (files : List Nat) (d : Dir) : List Findi
   let act := old ++ a.active ++ w.wpActive
   let fin := a.findings ++ wpf ++ (if o.reportCheckers then [w.checkersLine act] else [])
   (fin, { a.dir with checkers := some act })
+
+/-- A run WITHOUT a build directory: no cache is read or written, `summaryReturn` is empty (`Summaries::loadReturn`
+returns at once), every file is analysed (or returns early), the whole-program analysis works on the FileInfo of all
+analysed files kept in memory, the checkers report counts the checkers of all analysed files. -/
+def noBuildDirRun (w : World) (o : Opts) (files : List Nat) : List Finding :=
+  let res := fun f => (w.analyze f (w.loadReturn [])).items
+  let perFile := files.flatMap (fun f => match w.early f with
+    | some fs => fs
+    | none => (res f).filterMap Item.finding?)
+  let infos := files.flatMap (fun f => match w.early f with
+    | some _ => []
+    | none => (res f).filterMap Item.info?)
+  let act := files.flatMap (fun f => match w.early f with
+    | some _ => []
+    | none => (w.analyze f (w.loadReturn [])).active)
+  perFile ++ w.wp infos ++ (if o.reportCheckers then [w.checkersLine (act ++ w.wpActive)] else [])
 
 /-! ### crashes -/
 
